@@ -31,7 +31,7 @@ class _from_assumed:
     """_compile_from: selects the table (self.table) and returns the FROM expression, if any"""
     kind = 'assumed'
     params = {'self': COMPILER, 'node': Dyn()}
-    result = Opt(Opaque('node'))
+    result = Dyn(('none', 'obj'))
     modifies = ['self.table', 'self.subquery']
     raises = {'CompilationError': None}
     ensures = [('deterministic', lambda node, result: result == from_of(node))]
@@ -41,7 +41,7 @@ class _where_assumed:
     """_compile on the WHERE clause: None exactly for an absent clause"""
     kind = 'assumed'
     params = {'self': COMPILER, 'node': Dyn()}
-    result = Opt(Opaque('node'))
+    result = Dyn(('none', 'obj'))
     modifies = []
     raises = {'CompilationError': None}
     ensures = [('deterministic', lambda node, result: result == compiled_of(node)),
@@ -65,7 +65,7 @@ class _group_by_summary:
     """summary of the proved contracts of _compile_group_by (explicit and implicit)"""
     kind = 'assumed'
     params = {'self': COMPILER, 'group_by': Dyn(), 'c_targets': ListOf(TARGET)}
-    result = Fixed([ListOf(TARGET), Opt(ListOf(Int(0))), Opt(Int(0))])
+    result = Fixed([ListOf(TARGET), Dyn(('none', 'seq')), Dyn(('none', 'int'))])
     modifies = ['fields:c_expr', 'fields:name', 'fields:is_aggregate']
     raises = {'CompilationError': None}
     ensures = [('added-targets-are-hidden', lambda result: all(result[0][j].name is None for j in range(len(result[0])))),
@@ -86,7 +86,7 @@ class _order_by_summary:
 class _pivot_by_summary:
     kind = 'assumed'
     params = {'self': COMPILER, 'pivot_by': Dyn(), 'targets': ListOf(TARGET), 'group_indexes': Dyn()}
-    result = Opt(Fixed([Int(0), Int(0)], kind='list'))
+    result = Dyn(('none', 'seq'))
     modifies = []
     raises = {'CompilationError': None}
 
@@ -110,7 +110,7 @@ def query_of(result):
 
 @contract(f'{CP}:Compiler._compile_select', 'assembly')
 class compile_select:
-    props = ['C07', 'C01', 'C02', 'C05']
+    props = ['C07', 'C01', 'C05']
     params = {'self': COMPILER, 'node': SELECT}
     callees = SCALLEES
     opaque_ctors = {'EvalQuery': ['table', 'c_targets', 'c_where', 'group_indexes', 'having_index', 'order_spec', 'limit', 'distinct'],
@@ -121,6 +121,10 @@ class compile_select:
     assumes = ['ATTRS_PRESENT', 'the statement has an explicit target list (the wildcard form of _compile_targets has its own contract)',
                'clause compilers as summarised from their own contracts (c05.py); _compile / _compile_from / is_aggregate assumed']
     raises = {'CompilationError': None}
+    timeout = 4000
+    note = ('that every target after the written ones is hidden is proved where those targets are created (_compile_group_by / _compile_order_by: '
+            'added-targets-are-hidden); its restatement over the concatenated list did not discharge within the budget here and is not claimed; '
+            'the covering of the non-aggregate targets by the group keys (set comparison) is not stated either: bounded evidence in h02 / h05')
     ensures = [
         ('row-condition-is-from-and-where', lambda node, result:
             (query_of(result).c_where is None) == (from_of(node.from_clause) is None and node.where_clause is None)
@@ -133,8 +137,6 @@ class compile_select:
             and all(query_of(result).c_targets[j].c_expr == compiled_of(node.targets[j].expression) for j in range(len(node.targets)))),
         ('written-targets-named-by-the-rule', lambda node, result:
             all(query_of(result).c_targets[j].name == name_of(node.targets[j]) for j in range(len(node.targets)))),
-        ('every-other-target-is-hidden', lambda node, result:
-            all(query_of(result).c_targets[j].name is None for j in range(len(node.targets), len(query_of(result).c_targets)))),
         ('limit-distinct-table-passed-through', lambda self, node, result: query_of(result).limit == node.limit
             and query_of(result).distinct == node.distinct and query_of(result).table == self.table),
     ]
